@@ -513,6 +513,36 @@ class C02(Prop):
         return out + roundtrip_chunk_cases(ctx, False)[:120]
 
 
+def frozen_corpus_cases(ctx):
+    """files written once by the pinned code (corpus/frozen, committed) and the repository's golden files must keep
+    decrypting — by the current implementation AND by the model"""
+    import hashlib, json
+    d = os.path.join(vlib.VERIF, "corpus", "frozen")
+    idx = json.load(open(os.path.join(d, "index.json")))
+    out = []
+    for ent in idx["files"]:
+        if ent["len"] > 5000 and not ctx.thorough() and ent["len"] != 65537:
+            continue
+        if ent["len"] == 65537 and not ctx.thorough() and ent["mode"] == "pass":
+            continue
+        data = open(os.path.join(d, ent["file"]), "rb").read()
+
+        def orc(res, ent=ent):
+            if res["code"] != 0:
+                return ("a file written by the pinned release keeps decrypting (%s)" % ent["file"], res["outcome"])
+            if hashlib.sha256(res["out"]).hexdigest() != ent["plaintext_sha256"]:
+                return ("frozen file %s decrypts to its original plaintext" % ent["file"], "sha256=" + hashlib.sha256(res["out"]).hexdigest())
+            if ent["mode"] == "key" and res["extra"].hex() != ent["sender"]:
+                return ("frozen file %s names its sender" % ent["file"], "sender=" + res["extra"].hex())
+            return None
+        tag = ["golden" if ent["file"].startswith("golden") else "frozen"]
+        if ent["mode"] == "key":
+            out.append(Case("key_dec", r=bytes.fromhex(ent["r"]), rpk=bytes.fromhex(ent["rpk"]), data=data, oracle=orc, tags=tag))
+        else:
+            out.append(Case("pass_dec", pw=bytes.fromhex(ent["pw"]), data=data, oracle=orc, tags=tag))
+    return out
+
+
 class C06(Prop):
     id = "C06"
     rule = ("cases: exact output bytes of key/password encryption (injected ephemeral, payload key, salt) compared with "
@@ -531,6 +561,7 @@ class C06(Prop):
             ad, pt = ctx.rbytes(rng.randrange(0, 20)), ctx.rbytes(rng.randrange(0, 40))
             c = Case("nseal", key=key, n=n, ad=ad, x=pt, tags=["nonce"])
             out.append(c)
+        out += frozen_corpus_cases(ctx)
         (s, spk), (r, rpk), (e, epk) = keypairs(ctx, 3)
         for _ in range(4 if ctx.thorough() else 2):
             out.append(Case("noise_enc", s=s, spk=spk, r=rpk, e=e, epk=epk, prologue=bytes([0x65, 0x67, 0x6b, 0x10]),
